@@ -87,7 +87,9 @@ CausalOrder(r) ==
     IsOuts(r) => \A i \in 1..Len(r.stream) :
         r.stream[i].kind = "action" =>
             \E j \in 1..(i - 1) : r.stream[j].kind = "login" /\ r.stream[j].id = r.stream[i].id
-WholeLines(r) == IsOuts(r) => (r.torn = 0 /\ r.badwrites = 0 /\ r.writes = r.lines)
+\* ... and what an earlier run left in the file is still there, untouched, in front of them (priorok)
+WholeLines(r) == IsOuts(r) => (r.torn = 0 /\ r.badwrites = 0 /\ r.writes = r.lines
+                               /\ ("priorok" \in DOMAIN r => r.priorok))
 LoginLinesOnce(r, hh) ==
     IsOuts(r) =>
         LET ids == {r.stream[i].id : i \in {j \in 1..Len(r.stream) : r.stream[j].kind = "login"}}
